@@ -74,7 +74,7 @@ Flat(g, r) == [i \in 1..(g.w * TH(g)) |-> r.lines[((i - 1) \div g.w) + 1][((i - 
 (*   w      : b                    WriteByte(b)                              *)
 (*   cur    : x y                  SetCursorPosition(x, y)  (saturated)      *)
 (*   st     : a                    SetState(a)  a = 1 active, 0 inactive     *)
-(* observation: res ("ok" | "panic" | "err"), cx cy (CursorPosition()),      *)
+(* observation: res ("ok" | "panic" | "err" | "hang"), cx cy (CursorPosition()), *)
 (*   vy (viewport origin), cp (1 = checkpoint: data holds the whole buffer   *)
 (*   as cell codes), and the console side (see VTConsole).                   *)
 (* ----------------------------------------------------------------------- *)
@@ -97,7 +97,7 @@ Checks17(g, r2, e) ==
       bad  == ok /\ e.cp = 1 /\ e.data # f
   IN
   << <<"C17", ~ok,
-       <<"terminal call did not complete (a Go panic is how a write outside the buffer shows)", e.k, e.res>> >>,
+       <<"terminal call did not complete (panic: how Go shows a write outside the buffer; hang: it never returned)", e.k, e.res>> >>,
      <<"C17", ok /\ ~(e.cx \in 1..g.w /\ e.cy \in 1..g.h),
        <<"cursor outside the viewport", e.cx, e.cy, "viewport", g.w, g.h>> >>,
      <<"C17", ok /\ (e.cx # r2.x \/ e.cy # r2.y),
